@@ -157,7 +157,7 @@ def tname(t):
         return "%s or None" % tname(t[1])
     if is_tup(t):
         return "(" + ", ".join(tname(x) for x in t[1:]) + ")"
-    return t
+    return t if isinstance(t, str) else "%s(%s)" % (t[0], ", ".join(tname(x) for x in t[1:]))
 
 
 DRIVE_FUEL = "drive_fuel {0}"
